@@ -64,6 +64,20 @@ def CU(x):
     return u.upper() if x.get('cspell') == 'upper' else u
 
 
+def PU(r):
+    """The parent's uuid as the request spells it: 'pspell' writes the same
+    uuid in another of the forms the uuid format admits."""
+    u = U(r['parent'])
+    how = r.get('pspell')
+    if how == 'upper':
+        return u.upper()
+    if how == 'nodash':
+        return u.replace('-', '')
+    if how == 'braces':
+        return '{' + u + '}'
+    return u
+
+
 def render(r):
     op = r['op']
     v = r.get('v')
@@ -75,14 +89,14 @@ def render(r):
         if r['parent'] == 'null':
             b['parent_provider_uuid'] = None
         elif r['parent'] != '':
-            b['parent_provider_uuid'] = U(r['parent'])
+            b['parent_provider_uuid'] = PU(r)
         return 'POST', rp, headers(v, True), b
     if op == 'rp_update':
         b = {'name': r['name']}
         if r['parent'] == 'null':
             b['parent_provider_uuid'] = None
         elif r['parent'] != '':
-            b['parent_provider_uuid'] = U(r['parent'])
+            b['parent_provider_uuid'] = PU(r)
         return 'PUT', '%s/%s' % (rp, U(r['u'])), headers(v, True), b
     if op == 'rp_delete':
         return 'DELETE', '%s/%s' % (rp, U(r['u'])), headers(v), None
